@@ -7,7 +7,8 @@
      abs x          the abstract sequence (list of element texts) x wraps
      elem_at a i    the element index i addresses (0 <= i < len), or nothing
      atoi p         Go's strconv.Atoi on the path segment p (Base/Strconv.v, validated against the real one)
-     ver            which strings.go is modelled: [fixed] = after the three "fix:" commits, [pinned] = before
+     ver            which strings.go is modelled: [fixed] = after the "fix:" commits, [pinned] = before; the theorems that
+                    do not depend on the version are stated for every [w]
    Every theorem is for all sequences, both representations, both argument forms, all
    indices / path segments; nothing is bounded. *)
 From Coq Require Import ZArith NArith List Bool Ascii String Lia.
@@ -17,9 +18,9 @@ Local Open Scope Z_scope.
 
 (* ---------- element addressing: Get, Compare, Length, Capacity ---------- *)
 (* Get yields a reference to element i itself (&ss[i] / &pp[i]) and it reads the element's text. *)
-Theorem C17_get_addresses : forall x p i t,
+Theorem C17_get_addresses : forall w x p i t,
   good x = true -> atoi p = Some i -> elem_at (abs x) i = Some t ->
-  si_get_to x [p] = Ret (Some (mkref (rep_of x) i)) None /\ deref x (mkref (rep_of x) i) = Some t.
+  si_get_to w x [p] = Ret (Some (mkref (rep_of x) i)) None /\ deref x (mkref (rep_of x) i) = Some t.
 Proof. exact get_addresses. Qed.
 Print Assumptions C17_get_addresses.
 
@@ -31,18 +32,18 @@ Theorem C17_compare_addresses : forall w x p i t,
 Proof. exact compare_addresses. Qed.
 Print Assumptions C17_compare_addresses.
 
-Theorem C17_length_addresses : forall x p i t,
+Theorem C17_length_addresses : forall w x p i t,
   good x = true -> atoi p = Some i -> elem_at (abs x) i = Some t ->
-  si_length x [p] = Ret (Wrote (Z.of_nat (List.length t))) None.
+  si_length w x [p] = Ret (Wrote (Z.of_nat (List.length t))) None.
 Proof. exact length_addresses. Qed.
 Print Assumptions C17_length_addresses.
 
 (* Capacity: the capacity of the []byte element i; a string element has no capacity and nothing is stored. *)
-Theorem C17_capacity_addresses : forall x p i t,
+Theorem C17_capacity_addresses : forall w x p i t,
   good x = true -> atoi p = Some i -> elem_at (abs x) i = Some t ->
   match rep_of x with
-  | PP => exists e, znth (elems_of x) i = Some e /\ e_data e = t /\ si_capacity x [p] = Ret (Wrote (e_cap e)) None
-  | SS => si_capacity x [p] = Ret NotWritten None
+  | PP => exists e, znth (elems_of x) i = Some e /\ e_data e = t /\ si_capacity w x [p] = Ret (Wrote (e_cap e)) None
+  | SS => si_capacity w x [p] = Ret NotWritten None
   end.
 Proof. exact capacity_addresses. Qed.
 Print Assumptions C17_capacity_addresses.
@@ -81,13 +82,13 @@ Proof. exact set_exact_nonempty. Qed.
 Print Assumptions C17_set_exact_nonempty.
 
 (* ---------- outside the range: addresses nothing, changes nothing ---------- *)
-Theorem C17_out_of_range_noop : forall x p i,
+Theorem C17_out_of_range_noop : forall w x p i,
   good x = true -> atoi p = Some i -> elem_at (abs x) i = None ->
-  si_get_to x [p] = Ret None None /\
+  si_get_to w x [p] = Ret None None /\
   (forall o r, si_compare fixed x o r [p] = Ret None None) /\
-  si_length x [p] = Ret NotWritten None /\
-  si_capacity x [p] = Ret NotWritten None /\
-  (forall w v nid, si_set_with_buffer w x v [p] nid = Ret (x, nid) None).
+  si_length w x [p] = Ret NotWritten None /\
+  si_capacity w x [p] = Ret NotWritten None /\
+  (forall w' v nid, si_set_with_buffer w' x v [p] nid = Ret (x, nid) None).
 Proof. exact out_of_range_noop. Qed.
 Print Assumptions C17_out_of_range_noop.
 
@@ -105,19 +106,19 @@ Proof. exact compare_negative_noop. Qed.
 Print Assumptions C17_compare_negative_noop.
 
 (* A segment Atoi rejects: the error is returned, nothing is stored, nothing changes. *)
-Theorem C17_unparsable_noop : forall x p,
+Theorem C17_unparsable_noop : forall w x p,
   good x = true -> atoi p = None ->
-  si_get_to x [p] = Ret None (Some EAtoi) /\
-  (forall w o r, si_compare w x o r [p] = Ret None (Some EAtoi)) /\
-  si_length x [p] = Ret NotWritten (Some EAtoi) /\
-  si_capacity x [p] = Ret NotWritten (Some EAtoi) /\
-  (forall w v nid, si_set_with_buffer w x v [p] nid = Ret (x, nid) (Some EAtoi)).
+  si_get_to w x [p] = Ret None (Some EAtoi) /\
+  (forall o r, si_compare w x o r [p] = Ret None (Some EAtoi)) /\
+  si_length w x [p] = Ret NotWritten (Some EAtoi) /\
+  si_capacity w x [p] = Ret NotWritten (Some EAtoi) /\
+  (forall v nid, si_set_with_buffer w x v [p] nid = Ret (x, nid) (Some EAtoi)).
 Proof. exact unparsable_noop. Qed.
 Print Assumptions C17_unparsable_noop.
 
 (* ---------- Loop: all elements, in order, decimal keys ---------- *)
-Theorem C17_loop_order_keys : forall x, good x = true ->
-  exists vs, si_loop x it_all [] = Ret vs None /\
+Theorem C17_loop_order_keys : forall w x, good x = true ->
+  exists vs, si_loop w x it_all [] = Ret vs None /\
     map (visit_text x) vs = loop_all (abs x) /\
     List.length vs = List.length (abs x) /\
     forall k, (k < List.length (abs x))%nat ->
@@ -131,8 +132,8 @@ Proof. exact atoi_decimal_index. Qed.
 Print Assumptions C17_loop_keys_parse.
 
 (* an iterator that breaks in round b (and says Continue before) sees exactly rounds 0..b *)
-Theorem C17_loop_break : forall x want b, good x = true -> (b < List.length (abs x))%nat ->
-  si_loop x {| it_want := want; it_ctl := fun k => if Nat.eqb k b then CtlBrk else CtlCnt |} [] =
+Theorem C17_loop_break : forall w x want b, good x = true -> (b < List.length (abs x))%nat ->
+  si_loop w x {| it_want := want; it_ctl := fun k => if Nat.eqb k b then CtlBrk else CtlCnt |} [] =
   Ret (firstn (S b) (loop_from (mkref (rep_of x)) {| it_want := want; it_ctl := fun _ => CtlNone |} 0 (List.length (abs x)))) None.
 Proof. exact loop_break. Qed.
 Print Assumptions C17_loop_break.
@@ -165,9 +166,9 @@ Print Assumptions C17_spec_equal_is_equality.
 (* the destination keeps its elements and gains, in order, one copy per source element; every
    copy is a fresh allocation (ids nid .. nid+len-1, pairwise different, cap = len), so it
    shares no bytes with any source element allocated before *)
-Theorem C17_copyto_appends_fresh : forall src d nid, good src = true ->
+Theorem C17_copyto_appends_fresh : forall w src d nid, good src = true ->
   exists d' cs,
-    si_copy_to src (APtr d) nid = Ret (APtr d', nid + zlen (elems_of src)) None /\
+    si_copy_to w src (APtr d) nid = Ret (APtr d', nid + zlen (elems_of src)) None /\
     q_elems d' = q_elems d ++ cs /\ q_rep d' = q_rep d /\
     abs_elems cs = abs src /\
     (forall c, In c cs -> nid <= e_id c < nid + zlen (elems_of src)) /\
@@ -178,41 +179,41 @@ Theorem C17_copyto_appends_fresh : forall src d nid, good src = true ->
 Proof. exact copyto_appends_fresh. Qed.
 Print Assumptions C17_copyto_appends_fresh.
 
-Theorem C17_copyto_by_value_refused : forall src s nid, good src = true ->
-  si_copy_to src (AVal s) nid = Ret (AVal s, nid) (Some EMustPointer).
+Theorem C17_copyto_by_value_refused : forall w src s nid, good src = true ->
+  si_copy_to w src (AVal s) nid = Ret (AVal s, nid) (Some EMustPointer).
 Proof. exact copy_to_by_value. Qed.
 Print Assumptions C17_copyto_by_value_refused.
 
-Theorem C17_copy_equal : forall x nid, good x = true ->
-  exists d, si_copy x nid = Ret (d, nid + zlen (elems_of x)) None /\ q_rep d = SS /\ abs_elems (q_elems d) = abs x.
+Theorem C17_copy_equal : forall w x nid, good x = true ->
+  exists d, si_copy w x nid = Ret (d, nid + zlen (elems_of x)) None /\ q_rep d = SS /\ abs_elems (q_elems d) = abs x.
 Proof. exact copy_equal. Qed.
 Print Assumptions C17_copy_equal.
 
 (* ---------- Reset ---------- *)
-Theorem C17_reset : forall s,
-  exists s', si_reset (APtr s) = Ret (APtr s') None /\ q_elems s' = [] /\
+Theorem C17_reset : forall w s,
+  exists s', si_reset w (APtr s) = Ret (APtr s') None /\ q_elems s' = [] /\
              q_rep s' = q_rep s /\ q_cap s' = q_cap s /\ q_nil s' = q_nil s.
 Proof. exact reset_truncates. Qed.
 Print Assumptions C17_reset.
 
-Theorem C17_reset_by_value_refused : forall s, si_reset (AVal s) = Ret (AVal s) (Some EMustPointer).
+Theorem C17_reset_by_value_refused : forall w s, si_reset w (AVal s) = Ret (AVal s) (Some EMustPointer).
 Proof. exact reset_val. Qed.
 Print Assumptions C17_reset_by_value_refused.
 
 (* ---------- a foreign dynamic type ---------- *)
 (* not demanded by C17 (C12 speaks about it); recorded because the model and the harness cover it *)
-Theorem C17_foreign_refused :
-  (forall p, si_get_to AForeign p = Ret None None) /\
-  (forall w v p nid, si_set_with_buffer w AForeign v p nid = Ret (AForeign, nid) None) /\
-  (forall w o r p, si_compare w AForeign o r p = Ret None None) /\
-  (forall it p, si_loop AForeign it p = Ret [] None) /\
-  (forall p, si_length AForeign p = Ret NotWritten None) /\
-  (forall p, si_capacity AForeign p = Ret NotWritten None) /\
-  (forall w y, si_deep_equal w AForeign y = Ret false None) /\
-  (forall w x, good x = true -> si_deep_equal w x AForeign = Ret false None) /\
-  (forall d nid, si_copy_to AForeign d nid = Ret (d, nid) (Some EUnsupported)) /\
-  (forall x nid, good x = true -> si_copy_to x AForeign nid = Ret (AForeign, nid) (Some EUnsupported)) /\
-  si_reset AForeign = Ret AForeign None.
+Theorem C17_foreign_refused : forall w,
+  (forall p, si_get_to w AForeign p = Ret None None) /\
+  (forall v p nid, si_set_with_buffer w AForeign v p nid = Ret (AForeign, nid) None) /\
+  (forall o r p, si_compare w AForeign o r p = Ret None None) /\
+  (forall it p, si_loop w AForeign it p = Ret [] None) /\
+  (forall p, si_length w AForeign p = Ret NotWritten None) /\
+  (forall p, si_capacity w AForeign p = Ret NotWritten None) /\
+  (forall y, si_deep_equal w AForeign y = Ret false None) /\
+  (forall x, good x = true -> si_deep_equal w x AForeign = Ret false None) /\
+  (forall d nid, si_copy_to w AForeign d nid = Ret (d, nid) (Some EUnsupported)) /\
+  (forall x nid, good x = true -> si_copy_to w x AForeign nid = Ret (AForeign, nid) (Some EUnsupported)) /\
+  si_reset w AForeign = Ret AForeign None.
 Proof. exact foreign_refused. Qed.
 Print Assumptions C17_foreign_refused.
 
